@@ -13,16 +13,26 @@
  *        h = HTTP request, a = API action invoked directly (expiry 0: parameter absent), e = ACKNOWLEDGE_*_PROBLEM,
  *        x = ACKNOWLEDGE_*_PROBLEM_EXPIRE, c = cluster event::SetAcknowledgement
  *   X <via h|a|e|c> <now>                                                   remove acknowledgement
- *   T <now>                                                                 time passes, then the object is looked at
+ *   T <now> [<reader 0|1|2>]                                                time passes, then the object is looked at;
+ *        <reader>: which getter looks first — 0 GetHandled, 1 GetSeverity, 2 GetAcknowledgement (default 0)
  *   P <now> <fired>                                                         Timer::VerifFireDue(now); <fired> (0|1: a timer
  *        ran — only the comment-expiry timer can be due, see Setup) is the implementation's own value, an oracle input
  *   D <on 0|1> <now>                                                        a fixed downtime in effect is added / removed
+ *   U <on 0|1> <now>                                                        the object is paused (SetAuthority(false)) / resumed
+ *   N <now>                                                                 NotificationComponent::NotificationTimerHandler()
+ *        with the reminder of the case's Notification object due (interval 1 s, next_notification reset before the call;
+ *        no users, period or filters, so that whether Notification::BeginExecuteNotification(Problem, reminder) is
+ *        reached — observed through OnNotificationSentToAllUsers — depends on the handler's guards only)
  * every line is followed by
  *   | <acc> <ack> <expiry> <handled> <problem> <state> <stype> <attempt> <nSet> <nCleared> <nAckNotif> <nProblemNotif> <comments>
- * where <ack> is Checkable::GetAcknowledgement() *at the virtual time `now`* (the look itself performs the lazy
- * expiry), the n* are the numbers of OnAcknowledgementSet / OnAcknowledgementCleared /
- * OnNotificationsRequested(Acknowledgement) / OnNotificationsRequested(Problem) signals during the operation and the
- * look, and <comments> is the sorted list `entryTime:persistent:expireTime,...` of the existing comments of entry type
+ *     <raw> <sevAck> <suppProblem> <suppRecovery> <nRecoveryNotif> <nReminders>
+ * where <raw> is the raw attribute `acknowledgement` read first of all (no reader involved), then — in the order the
+ * <reader> of a T line chooses, GetHandled first otherwise — <handled> is GetHandled(), <sevAck> is bit 512 ("acknowledged"
+ * class) of GetSeverity() and <ack> is Checkable::GetAcknowledgement(), all *at the virtual time `now`* (whichever comes
+ * first performs the lazy expiry), the n* are the numbers of OnAcknowledgementSet / OnAcknowledgementCleared /
+ * OnNotificationsRequested(Acknowledgement / Problem / Recovery) signals during the operation and the look,
+ * <suppProblem>/<suppRecovery> are the bits of suppressed_notifications (the stash C02's timer empties later), and
+ * <comments> is the sorted list `entryTime:persistent:expireTime,...` of the existing comments of entry type
  * acknowledgement (`-` if none).
  *
  * Times on the lines are relative to the case; the virtual clock runs at `base + t` with a base that grows from case
@@ -47,6 +57,7 @@
 #include "icinga/downtime.hpp"
 #include "icinga/externalcommandprocessor.hpp"
 #include "icinga/notification.hpp"
+#include "notification/notificationcomponent.hpp"
 #include "remote/apiaction.hpp"
 #include "remote/apifunction.hpp"
 #include "remote/apiuser.hpp"
@@ -65,8 +76,15 @@
 using namespace icinga;
 using namespace vh;
 
+namespace vh {
+typedef void NthFn();
+VH_ROB_MEMBER(NthTag, NotificationComponent, NthFn, NotificationTimerHandler)
+}
+
 static Checkable *l_Obj = nullptr;
-static int l_Set, l_Cleared, l_AckNotif, l_ProblemNotif;
+static int l_Set, l_Cleared, l_AckNotif, l_ProblemNotif, l_RecoveryNotif, l_Reminders;
+static NotificationComponent::Ptr l_NC;
+static Notification *l_Notif = nullptr;
 static MessageOrigin::Ptr l_Origin;
 static long l_Cases = 0;
 static long long l_Base = 0;      /* virtual clock = l_Base + case-relative time */
@@ -79,7 +97,9 @@ struct Case {
 	Service::Ptr svc;
 	Checkable::Ptr obj;
 	Downtime::Ptr downtime;
+	Notification::Ptr notif;
 	bool isHost;
+	bool paused = false;
 };
 
 static void Clock(long long t)
@@ -125,6 +145,24 @@ static Case MakeCase(bool isHost, int mx, bool vol)
 		c.svc->OnAllConfigLoaded();
 	c.obj = isHost ? Checkable::Ptr(c.host) : Checkable::Ptr(c.svc);
 	l_Obj = c.obj.get();
+	{
+		/* one Notification object without users, period, times or filters, reminders every second (constructed directly,
+		 * as the Host/Service are); no NotificationComponent is started, so requests are counted, not executed */
+		Notification::Ptr n = new Notification();
+		n->SetName(isHost ? "h!n" : "h!s!n");
+		n->SetField(n->GetReflectionType()->GetFieldId("host_name"), String("h"));
+		if (!isHost)
+			n->SetField(n->GetReflectionType()->GetFieldId("service_name"), String("s"));
+		n->SetInterval(1);
+		n->SetTypeFilter(~0);
+		n->SetStateFilter(~0);
+		n->Register();
+		static_pointer_cast<ConfigObject>(n)->OnAllConfigLoaded();
+		n->SetActive(true);
+		n->SetAuthority(true);
+		c.notif = n;
+		l_Notif = n.get();
+	}
 	l_Cases++;
 	return c;
 }
@@ -139,6 +177,13 @@ static void Finish(Case& c)
 		c.downtime = nullptr;
 	}
 	c.obj->RemoveAllComments();
+	if (c.notif) {
+		l_Notif = nullptr;
+		c.obj->UnregisterNotification(c.notif);
+		c.notif->SetActive(false);
+		c.notif->Unregister();
+		c.notif = nullptr;
+	}
 	if (c.svc) {
 		c.svc->SetActive(false);
 		c.svc->Unregister();
@@ -150,16 +195,25 @@ static void Finish(Case& c)
 
 static void ResetCounters()
 {
-	l_Set = l_Cleared = l_AckNotif = l_ProblemNotif = 0;
+	l_Set = l_Cleared = l_AckNotif = l_ProblemNotif = l_RecoveryNotif = l_Reminders = 0;
 }
 
 struct Cm { long long entry; int persistent; long long expire; };
 
-static void Observe(const Case& c, int acc)
+static void Observe(const Case& c, int acc, int reader = 0)
 {
-	int ack = (int)c.obj->GetAcknowledgement(); /* lazy expiry at the virtual time */
-	int handled = c.obj->GetHandled() ? 1 : 0;
+	/* the raw attribute first: nothing has looked at the object since the operation */
+	int raw = (int)c.obj->GetAcknowledgementRaw();
+	/* then the three readers, each of which evaluates the expiry lazily; whichever comes first has to see it */
+	int ack = 0, handled = 0, sevAck = 0;
+	for (int i = 0; i < 3; i++) {
+		int which = (reader + i) % 3; /* reader 0: handled, severity, ack; 1: severity, ack, handled; 2: ack, handled, severity */
+		if (which == 0) handled = c.obj->GetHandled() ? 1 : 0;
+		else if (which == 1) sevAck = (c.obj->GetSeverity() & 512) ? 1 : 0;
+		else ack = (int)c.obj->GetAcknowledgement();
+	}
 	int problem = c.obj->GetProblem() ? 1 : 0;
+	int supp = c.obj->GetSuppressedNotifications();
 	long long expiry = Rel(c.obj->GetAcknowledgementExpiry());
 	std::vector<Cm> cm;
 	for (const Comment::Ptr& comment : c.obj->GetComments()) {
@@ -178,7 +232,8 @@ static void Observe(const Case& c, int acc)
 		printf("-");
 	for (size_t i = 0; i < cm.size(); i++)
 		printf("%s%lld:%d:%lld", i ? "," : "", cm[i].entry, cm[i].persistent, cm[i].expire);
-	printf("\n");
+	printf(" %d %d %d %d %d %d\n", raw, sevAck, (supp & NotificationProblem) ? 1 : 0, (supp & NotificationRecovery) ? 1 : 0,
+		l_RecoveryNotif, l_Reminders);
 }
 
 /* ---- HTTP layer (as harness/c18.cpp): a whole request through the production dispatcher ---- */
@@ -315,11 +370,39 @@ static void DoRemove(const Case& c, char via, long long now)
 	Observe(c, 1);
 }
 
-static void DoAdvance(const Case& c, long long now)
+static void DoAdvance(const Case& c, long long now, int reader = 0)
 {
 	Clock(now);
 	ResetCounters();
-	printf("T %lld", now);
+	printf("T %lld %d", now, reader);
+	Observe(c, 1, reader);
+}
+
+static void DoRemind(const Case& c, long long now)
+{
+	Clock(now);
+	ResetCounters();
+	printf("N %lld", now);
+	/* the reminder is due (when reminders are due is C03's subject) */
+	c.notif->SetNextNotification(0);
+	c.notif->SetLastProblemNotification(0);
+	(l_NC.get()->*get(NthTag()))();
+	/* a reminder was attempted: the sent-to-all-users signal (with an empty user set) or the problem-notification stamp */
+	if (l_Reminders == 0 && c.notif->GetLastProblemNotification() != 0)
+		l_Reminders = 1;
+	if (l_Reminders > 1)
+		l_Reminders = 1;
+	Observe(c, 1);
+}
+
+static void DoPause(Case& c, int on, long long now)
+{
+	Clock(now);
+	ResetCounters();
+	printf("U %d %lld", on, now);
+	/* HA: the object is active on the other zone member (ApiListener::UpdateObjectAuthority does exactly this call) */
+	c.obj->SetAuthority(!on);
+	c.paused = on != 0;
 	Observe(c, 1);
 }
 
@@ -365,10 +448,13 @@ static Case Header(bool isHost, int mx, bool vol)
 	return MakeCase(isHost, mx, vol);
 }
 
-/* --- exhaustive part: all sequences of `len` symbols of a 15-symbol alphabet; time advances by 10 per step --- */
-static const int kSymbols = 15;
+/* --- exhaustive part: all sequences of `len` symbols of a 16-symbol alphabet; time advances by 10 per step.  Sequences
+ * that begin with a pure look (time advance, pump, reminder) are left out: on the never-checked, never-acknowledged object
+ * of a fresh case these do nothing, so such a sequence is its own tail, which is enumerated as the head of others. --- */
+static const int kSymbols = 16;
+static bool PureLook(int sym) { return sym == 11 || sym == 12 || sym == 15; }
 
-static void DoSymbol(Case& c, int sym, long long t)
+static void DoSymbol(Case& c, int sym, long long t, int pos)
 {
 	switch (sym) {
 	case 0: DoResult(c, 0, t, t, t); break;
@@ -382,10 +468,11 @@ static void DoSymbol(Case& c, int sym, long long t)
 	case 8: DoAck(c, 'c', 1, 1, 0, 0, t); break;
 	case 9: DoRemove(c, 'h', t); break;
 	case 10: DoRemove(c, 'e', t); break;
-	case 11: DoAdvance(c, t + 8); break;
+	case 11: DoAdvance(c, t + 8, pos % 3); break;     /* the first reader rotates with the position */
 	case 12: DoPump(c, t + 8); break;
-	case 13: DoDowntime(c, 1, t); break;
-	case 14: DoDowntime(c, 0, t); break;
+	case 13: DoDowntime(c, c.downtime ? 0 : 1, t); break; /* toggle */
+	case 14: DoPause(c, c.paused ? 0 : 1, t); break;      /* toggle */
+	case 15: DoRemind(c, t + 8); break;
 	}
 }
 
@@ -398,12 +485,14 @@ static void Enumerate(int len, int job, int jobs)
 	for (long idx = lo; idx < hi; idx++) {
 		long code = idx % total;
 		int cfg = (int)(idx / total);
+		if (len > 1 && PureLook((int)(code % kSymbols)))
+			continue;
 		Case c = Header((cfg & 2) != 0, 1 + (cfg & 1), false);
 		long k = code;
 		long long t = 1000;
 		for (int i = 0; i < len; i++) {
 			t += 10;
-			DoSymbol(c, (int)(k % kSymbols), t);
+			DoSymbol(c, (int)(k % kSymbols), t, i);
 			k /= kSymbols;
 		}
 		Finish(c);
@@ -423,8 +512,13 @@ static void Random(Rng& rng, int n, int maxLen)
 		int pAck = 1 + (int)rng.below(5);
 		for (int j = 0; j < len; j++) {
 			t += (long long)rng.below(12);
-			int k = (int)rng.below(12);
-			if (k == 10) {
+			int k = (int)rng.below(14);
+			if (k == 13) {
+				t += (long long)rng.below(20);
+				DoRemind(c, t);
+			} else if (k == 12) {
+				DoPause(c, (int)rng.below(3) == 0 ? 0 : (c.paused ? 0 : 1), t);
+			} else if (k == 10) {
 				t += (long long)rng.below(40);
 				DoPump(c, t);
 			} else if (k == 11) {
@@ -459,7 +553,7 @@ static void Random(Rng& rng, int n, int maxLen)
 				DoRemove(c, vias[rng.below(4)], t);
 			} else {
 				t += (long long)rng.below(30);
-				DoAdvance(c, t);
+				DoAdvance(c, t, (int)rng.below(3));
 			}
 		}
 		Finish(c);
@@ -489,7 +583,15 @@ static void Setup(int argc, char **argv)
 		if (o.get() != l_Obj) return;
 		if (type == NotificationAcknowledgement) l_AckNotif++;
 		if (type == NotificationProblem) l_ProblemNotif++;
+		if (type == NotificationRecovery) l_RecoveryNotif++;
 	});
+	Checkable::OnNotificationSentToAllUsers.connect([](const Notification::Ptr& n, const Checkable::Ptr&, const std::set<User::Ptr>&,
+		const NotificationType& type, const CheckResult::Ptr&, const String&, const String&, const MessageOrigin::Ptr&) {
+		if (n.get() == l_Notif && type == NotificationProblem) l_Reminders++;
+	});
+	/* the component whose timer handler the N operation calls; never activated: no timer, no signal connection */
+	l_NC = new NotificationComponent();
+	l_NC->SetName("c06-nc");
 
 	/* Comment::AddComment validates `host_name` against the registered *configuration items*; the harness builds its
 	 * Host/Service objects directly (as test/icinga-checkresult.cpp does), so it registers one never-committed
@@ -566,9 +668,9 @@ static void RunOps(const char *path)
 			if (sscanf(line, "X %c %lld", &via, &now) != 2 || !c.obj) { fprintf(stderr, "bad X line\n"); _exit(2); }
 			DoRemove(c, via, now);
 		} else if (line[0] == 'T') {
-			long long now;
-			if (sscanf(line, "T %lld", &now) != 1 || !c.obj) { fprintf(stderr, "bad T line\n"); _exit(2); }
-			DoAdvance(c, now);
+			long long now; int reader = 0;
+			if (sscanf(line, "T %lld %d", &now, &reader) < 1 || !c.obj) { fprintf(stderr, "bad T line\n"); _exit(2); }
+			DoAdvance(c, now, ((reader % 3) + 3) % 3);
 		} else if (line[0] == 'P') {
 			long long now;
 			if (sscanf(line, "P %lld", &now) != 1 || !c.obj) { fprintf(stderr, "bad P line\n"); _exit(2); }
@@ -577,6 +679,14 @@ static void RunOps(const char *path)
 			int on; long long now;
 			if (sscanf(line, "D %d %lld", &on, &now) != 2 || !c.obj) { fprintf(stderr, "bad D line\n"); _exit(2); }
 			DoDowntime(c, on, now);
+		} else if (line[0] == 'N') {
+			long long now;
+			if (sscanf(line, "N %lld", &now) != 1 || !c.obj) { fprintf(stderr, "bad N line\n"); _exit(2); }
+			DoRemind(c, now);
+		} else if (line[0] == 'U') {
+			int on; long long now;
+			if (sscanf(line, "U %d %lld", &on, &now) != 2 || !c.obj) { fprintf(stderr, "bad U line\n"); _exit(2); }
+			DoPause(c, on, now);
 		}
 	}
 	Finish(c);
